@@ -43,13 +43,16 @@ class Op:
 class Int(Op):
     kind = "int"
 
-    def __init__(self, lo, hi, rej_lo=True, rej_hi=True, plus=False, holes=(), name=None, step=1, far=True):
+    def __init__(self, lo, hi, rej_lo=True, rej_hi=True, plus=False, holes=(), name=None, step=1, far=True,
+                 rej_from=None, extra=()):
         self.lo, self.hi, self.rej_lo, self.rej_hi = lo, hi, rej_lo, rej_hi
         self.plus = plus          # render with an explicit sign (displacement after a register)
         self.holes = set(holes)   # values inside lo..hi that are excluded from generation
         self.name = name
         self.step = step          # only multiples of step are generated (aligned fields)
         self.far = far            # values far beyond the limits are rejected too (else only +-1..+-3)
+        self.extra = list(extra)  # further values of special interest (e.g. constant-generator values)
+        self.rej_from = rej_from  # values in hi+1 .. rej_from-1 are not generated, >= rej_from must be rejected
 
     def classify(self, v, pc=0, vals=None):
         if v in self.holes or v % self.step:
@@ -57,13 +60,18 @@ class Int(Op):
         if self.lo <= v <= self.hi:
             return "ok"
         if v > self.hi:
+            if self.rej_from is not None:
+                return "rej" if v >= self.rej_from else "excl"
             return "rej" if self.rej_hi else "excl"
         return "rej" if self.rej_lo else "excl"
 
     def boundary_ok(self):
+        if (self.hi - self.lo) // self.step < 16:
+            return [v for v in range(self.lo, self.hi + 1, self.step) if v not in self.holes]
         c = [self.lo, self.lo + self.step, self.hi - self.step, self.hi, 0, self.step, -self.step]
         for p in (7, 8, 15, 16):
             c += [(1 << p) - 1, 1 << p, -(1 << p)]
+        c += self.extra
         out = []
         for v in c:
             if self.lo <= v <= self.hi and v not in self.holes and v % self.step == 0 and v not in out:
@@ -72,7 +80,9 @@ class Int(Op):
 
     def boundary_rej(self):
         out = []
-        if self.rej_hi:
+        if self.rej_from is not None:
+            out += [self.rej_from, self.rej_from + self.step]
+        elif self.rej_hi:
             out += [self.hi + self.step, self.hi + 2 * self.step]
         if self.rej_lo:
             out += [self.lo - self.step, self.lo - 2 * self.step]
@@ -85,6 +95,10 @@ class Int(Op):
             dlt = (v - ref) // s
             if abs(dlt) <= 1:
                 return nm + ("%+d" % dlt if dlt else "")
+        if self.rej_from is not None and 0 <= v - self.rej_from <= s:
+            return "field+%d" % (v - self.rej_from + 1)
+        if v in self.extra:
+            return "special%d" % v
         if v == 0:
             return "zero"
         return None
@@ -108,7 +122,9 @@ class Int(Op):
             return d.choice(b)
         span = max(self.hi - self.lo + 1, 4)
         far = []
-        if self.rej_hi:
+        if self.rej_from is not None:
+            far.append(self.rej_from + self.step * d.int(1, min(span * 3, 70000)))
+        elif self.rej_hi:
             far.append(self.hi + self.step * d.int(1, min(span * 3, 70000)))
         if self.rej_lo:
             far.append(self.lo - self.step * d.int(1, min(span * 3, 70000)))
@@ -163,6 +179,10 @@ class Rel(Op):
     def target(self, v, pc):
         return pc + self.pcoff + v * self.scale
 
+    def from_target(self, t, pc):
+        dlt = t - pc - self.pcoff
+        return None if dlt % self.scale else dlt // self.scale
+
     def boundary_ok(self):
         out = []
         for v in (self.lo, self.lo + 1, self.lo + 2, self.hi - 2, self.hi - 1, self.hi, 0, -1, 1,
@@ -198,13 +218,14 @@ class Rel(Op):
 
 
 class Form:
-    def __init__(self, name, fmt, ops, enc, rel=None, note=None):
+    def __init__(self, name, fmt, ops, enc, rel=None, note=None, dontcare=None):
         self.name = name        # unique within the ISA
         self.fmt = fmt          # assembler text, {0} {1} .. are the operands
         self.ops = list(ops)
         self.enc = enc          # enc(pc, vals) -> bytes  (vals valid)
         self.rel = rel          # (operand index, decode(bytes) -> distance) for PC-relative fields
         self.note = note
+        self.dontcare = dontcare  # bytes: bits set are "don't care" in the manufacturer's definition
 
     def classify(self, vals, pc):
         """'ok' | ('rej', operand index) | 'excl'"""
@@ -222,7 +243,7 @@ class Form:
 
 class Isa:
     def __init__(self, name, cpu, forms, syntax, gran=1, slot=16, base=0x1000, prologue=(), maxaddr=0xffff,
-                 golden=None, extra_check=None):
+                 golden=None, offsets=(0,), page_end=None, golden_ignore=(), straddle=False, maxitems=250):
         self.name = name            # our name
         self.cpu = cpu              # asl CPU name
         self.forms = forms
@@ -233,6 +254,11 @@ class Isa:
         self.prologue = list(prologue)
         self.maxaddr = maxaddr
         self.golden = golden or []  # [(test name, {cpu-in-test-source: True})]
+        self.offsets = list(offsets)    # start offsets of the instruction inside its slot
+        self.page_end = page_end        # (page size, pc modulo page) to be visited by PC-relative forms
+        self.golden_ignore = set(golden_ignore)
+        self.maxitems = maxitems
+        self.straddle = straddle        # relative forms are visited at both ends of a batch
         names = [f.name for f in forms]
         dup = {n for n in names if names.count(n) > 1} if len(set(names)) != len(names) else set()
         if dup:
